@@ -233,10 +233,11 @@ def run(chk):
                 a, b = scrut(e['x'], m), scrut(e['y'], m)
                 if a is None or b is None:
                     return None
-                try:
-                    return {'+': a + b, '-': a - b, '*': a * b, '/': a // b, '%': a % b, '>>': a >> b, '<<': a << b, '&': a & b, '|': a | b}.get(e['op'])
-                except ZeroDivisionError:
+                op = e['op']
+                if op in ('/', '%') and b == 0:
                     return None
+                return {'+': lambda: a + b, '-': lambda: a - b, '*': lambda: a * b, '/': lambda: a // b, '%': lambda: a % b, '>>': lambda: a >> b, '<<': lambda: a << b,
+                        '&': lambda: a & b, '|': lambda: a | b}.get(op, lambda: None)()
             return None
         seen_by = {v: scrut(ms[0]['x'], ref[v]['magic']) for v in ref}
         chk.need(all(x is not None for x in seen_by.values()), 'get_ver_from_magic_num: the scrutinee `%s` of the match could not be evaluated' % T.show(ms[0]['x']))
